@@ -9,7 +9,9 @@ import HalmosVerif.Gen.HashTables512
 namespace HalmosVerif.Props.C08
 open HalmosVerif.Lemmas.KeccakTables HalmosVerif.Gen.HashTables
 
-theorem keccak256_512_2_ok : keccak256_512_2.all h512Ok = true := by decide +kernel
-theorem keccak256_512_3_ok : keccak256_512_3.all h512Ok = true := by decide +kernel
+theorem keccak256_512_2_ok : keccak256_512_2.all h512Ok = true :=
+  all_quarters 16 (by decide +kernel) (by decide +kernel) (by decide +kernel) (by decide +kernel)
+theorem keccak256_512_3_ok : keccak256_512_3.all h512Ok = true :=
+  all_quarters 16 (by decide +kernel) (by decide +kernel) (by decide +kernel) (by decide +kernel)
 
 end HalmosVerif.Props.C08
